@@ -3,6 +3,10 @@
    implementation by the correspondence run of checks/c11.py); ShapeConnectionPin::directions and the ATTACH_POS_* /
    ConnDir* constants are regenerated from connectionpin.{h,cpp} / connend.h by cpp2v on every run (Gen/ConnPin.v). *)
 From Adapt Require Import Num.Qaux Avoid.PinsModel Gen.ConnPin Avoid.Pins.
+(* Gen/VisEdge.v (getPosVertInfDirections and the three edge decisions of generateVisibilityEdgesFromBreakpointSet, regenerated from
+   orthogonal.cpp on every run) is only Required: it redefines the ConnDir* constants, its names are used qualified *)
+From Adapt Require Gen.VisEdge.
+From Adapt Require Import Avoid.PinVisEdgesModel Avoid.PinVisEdges.
 Local Open Scope Q_scope.
 
 (* T: the translated directions() is the model's, the translated constants are the model's *)
@@ -129,3 +133,43 @@ Print Assumptions C11_retarget_detached_no_candidates.
 Theorem C11_invariant_all_histories ops st : Inv st -> Inv (run st ops).
 Proof. exact (Inv_run ops st). Qed.
 Print Assumptions C11_invariant_all_histories.
+
+(* ---- seeded change C11-6: which orthogonal visibility edges a pin gets from its scan-line neighbours (DESIGN 9.14) ----
+   T: the translated getPosVertInfDirections is the intended map ConnDirFlags -> scan-line flags, for every mask and dimension *)
+Theorem C11_gen_scan_directions m dim : VisEdge.getPosVertInfDirections (VisEdge.mkvert m) dim = scan_dirs m dim.
+Proof. exact (gen_scan_dirs m dim). Qed.
+Print Assumptions C11_gen_scan_directions.
+
+(* T: the three local decisions of LineSegment::generateVisibilityEdgesFromBreakpointSet, as translated from the source, are the intended
+   ones: canSeeDown looks at VERT's flags, canSeeUp at LAST's, generateEdge at both *)
+Theorem C11_gen_visibility_decisions ld vd lc vc :
+  (VisEdge.visedge_canSeeDown ld vd lc vc = has vd ScanDown) /\
+  (VisEdge.visedge_canSeeUp ld vd lc vc = has ld ScanUp) /\
+  (VisEdge.visedge_generateEdge ld vd lc vc = andb (implb lc (has ld ScanUp)) (implb vc (has vd ScanDown))).
+Proof. exact (conj (gen_canSeeDown ld vd lc vc) (conj (gen_canSeeUp ld vd lc vc) (gen_generateEdge ld vd lc vc))). Qed.
+Print Assumptions C11_gen_visibility_decisions.
+
+(* every edge generated for a pair of scan-line neighbours leaves a connection point only towards a side its scan flags permit *)
+Theorem C11_pair_edges_respect last vert sb sa e :
+  In e (gen_pair_edges last vert sb sa) -> edge_respects last vert e = true.
+Proof. exact (pair_edges_respect last vert sb sa e). Qed.
+Print Assumptions C11_pair_edges_respect.
+
+(* ... and in terms of the two pins' ConnDirFlags (ml: the pin at the lower position, mv: at the higher; dim 0 = a row, 1 = a column):
+   the higher pin gets its edge across the neighbour towards lower positions iff its OWN mask contains Left / Up, the lower pin its edge
+   towards higher positions iff its OWN mask contains Right / Down, the direct edge iff both *)
+Theorem C11_pin_edges_respect_ConnDirFlags ml mv dim sb sa :
+  dim = 0%Z \/ dim = 1%Z ->
+  let es := gen_pair_edges (pin_bp ml dim) (pin_bp mv dim) sb sa in
+  (In (mkedge Side Vert) es <-> has mv (dim_lower_flag dim) = true /\ sb = true) /\
+  (In (mkedge Last Side) es <-> has ml (dim_higher_flag dim) = true /\ sa = true) /\
+  (In (mkedge Last Vert) es <-> has ml (dim_higher_flag dim) = true /\ has mv (dim_lower_flag dim) = true).
+Proof. exact (pin_edges_respect_ConnDirFlags ml mv dim sb sa). Qed.
+Print Assumptions C11_pin_edges_respect_ConnDirFlags.
+
+(* the decision as the seeded change wrote it (the neighbour's flag) violates C11_pair_edges_respect *)
+Theorem C11_wrong_canSeeDown_refuted :
+  exists last vert e, In e (pair_edges wrong_canSeeDown VisEdge.visedge_canSeeUp VisEdge.visedge_generateEdge last vert true true) /\
+                      edge_respects last vert e = false.
+Proof. exact wrong_canSeeDown_refuted. Qed.
+Print Assumptions C11_wrong_canSeeDown_refuted.
